@@ -40,15 +40,18 @@ def queries (q : Nat) (H : Nat → Option Nat → Nat) (link : Link) :
   | _, [] => []
   | c, sl :: rest => (pg q c sl.1 sl.2, ph q link c sl.1) :: queries q H link (step q H link c sl) rest
 
+/-- Link data of `Verify`: scope base (from the scope) and tag (from the signature). -/
+def linkOf (hb tag : Option Nat) : Link :=
+  match hb, tag with
+  | some b, some t => some (b, t)
+  | _, _ => none
+
 /-- `Verify`: exactly `n` responses are read for a ring of `n` keys; the chain started at `c0` must
     return to `c0`. `hb` is the scope base when linkable; the tag is taken from the signature. -/
 def verify (q : Nat) (H : Nat → Option Nat → Nat) (ring : List Nat) (hb : Option Nat) (sig : Sig) : Bool :=
-  let link : Link := match hb, sig.tag with
-    | some b, some t => some (b, t)
-    | _, _ => none
   if hb.isSome ≠ sig.tag.isSome then false else
   if sig.s.length ≠ ring.length then false else
-  chain q H link sig.c0 (sig.s.zip ring) % q = sig.c0 % q
+  chain q H (linkOf hb sig.tag) sig.c0 (sig.s.zip ring) % q = sig.c0 % q
 
 /-- `Sign` for the signer at position `before.length` of the ring `before ++ [x•B] ++ after`:
     commitment `u`, responses `sb`, `sa` picked for the other positions (loop order: `after` first,
